@@ -373,6 +373,21 @@ def workerFinish (ops : BufOps β) (cfg : Cfg) (host t0host : Bytes) (w : Worker
 def workerRun (ops : BufOps β) (cfg : Cfg) (host t0host : Bytes) (b0 : β) (evs : List PEv) : List (Bool × Em) :=
   workerFinish ops cfg host t0host (evs.foldl (pollStep ops cfg host) (Worker.init b0))
 
+/-! ### pdcp / rpdcp: `_parallel_copy` relays the remote STDERR (only), with the same two functions
+
+    rv = th->pcp_Popt ? _pcp_server (th) : _pcp_client (th);
+    if ((!th->pcp_Popt && rv < 0) || th->pcp_Popt) {
+        while (_handle_rcmd_stderr (th) > 0) ;
+        _flush_output (th->errbuf, (out_f) err, th);
+    }
+
+  The descriptor is blocking here (`_rcp_thread` does not make it non-blocking): every handler call finds
+  at least one byte or EOF -- a `runStream` whose script has no empty arrival.  A pdcp client that succeeds
+  (rv >= 0, not -P) never reads the remote stderr. -/
+def parallelCopyStderr (ops : BufOps β) (cfg : Cfg) (host t0host : Bytes) (popt : Bool) (rv : Int) (b : β)
+    (script : List Bytes) : List Em :=
+  if popt ∨ rv < 0 then (runStream ops cfg host t0host 2 false b script).ems else []
+
 /-! ### instance 1: the index-level model of cbuf.c -/
 
 def indexOps : BufOps Cbuf.Cbuf where
